@@ -684,8 +684,13 @@ def _categorize_parameters(model):
             fixedpars -= param_symbols
             randpars |= param_symbols
 
+    if model.statements.ode_system is None:
+        # NOTE: Without ODE system there are no statements "after the odes"
+        error_statements = model.statements
+    else:
+        error_statements = model.statements.after_odes
     for y in model.dependent_variables.keys():
-        expr = model.statements.after_odes.full_expression(y)
+        expr = error_statements.full_expression(y)
         symbols = expr.free_symbols
         param_symbols = symbols.intersection(all_pop_params)
         cureps = symbols.intersection(epsilons)
